@@ -29,7 +29,7 @@ ASSUMPTIONS = ["-o output is the observation point (stdout default is not judged
 
 
 def plan(tier):
-    return {"cases": 1000 if tier == "quick" else 30000, "shards": 16,
+    return {"cases": 1000 if tier == "quick" else 150000, "shards": 16,
             "shard_budget_s": 300 if tier == "quick" else 3300}
 
 
